@@ -1,5 +1,6 @@
 import ERP.Spec.Lifecycle
 import ERP.Lemmas.Monad
+import ERP.Lemmas.GenTies
 /-! # C15 — A print that ends while excluding is cleaned up exactly once -/
 namespace ERP.C15
 open ERP
